@@ -38,6 +38,7 @@ type HarnessSpec struct {
 	Info       bool           `json:"info,omitempty"`      // informational: never a VIOLATION
 	BudgetIs   string         `json:"budget_is,omitempty"` // "violation": exceeding the step budget is the violation (C17 hang)
 	CrossCheck int            `json:"crosscheck,omitempty"`
+	InjectiveHash bool        `json:"injective_hash,omitempty"`
 }
 
 type PropSpec struct {
@@ -379,6 +380,7 @@ func runProperty(id, tier string) int {
 			cfg.MaxDecisions = hs.MaxDec
 		}
 		cfg.Verbose = os.Getenv("VERIF_VERBOSE") != ""
+		cfg.InjectiveHash = hs.InjectiveHash
 		eng := interp.NewEngine(ld, cfg)
 		eng.Params = hs.Params
 		eng.MaxDigits = hs.MaxDigits
@@ -582,6 +584,7 @@ func devHarness(args []string) int {
 	digits := fs.Int("digits", 0, "max digits")
 	cross := fs.Int("cross", 0, "cross-check N clean paths")
 	maxpaths := fs.Int("maxpaths", 0, "max paths")
+	injective := fs.Bool("injective", false, "injective sha1 model")
 	fs.Parse(args[1:])
 	name := args[0]
 	overlay, err := interp.BuildOverlay(filepath.Join(verifDir, "harness"), repoDir)
@@ -598,6 +601,7 @@ func devHarness(args []string) int {
 	cfg.Trace = *trace
 	cfg.Workers = *workers
 	cfg.Verbose = true
+	cfg.InjectiveHash = *injective
 	if *fallback != "" {
 		cfg.Fallback = strings.Split(*fallback, ",")
 	}
